@@ -21,6 +21,7 @@ RULE = ('random core and IOAPI files (float and small-integer payloads, '
         'non-trivial = at least one variable has a named dimension of length '
         '>= 2; distinct = digest of (file spec, functions).')
 RULE += (" Every tenth receiver is the object one of the library's READERS returns for a valid image written by the independent codecs (CAMx memory-mapped and record readers, bpch1, bpch2, arlpackedbit, ffi1001); the call is drawn from the dimensions of the open file and judged by the same oracle on a snapshot of that file.")
+RULE += (' IOAPI files may carry a variable without dimensions.')
 ASSUMPTIONS = [
     'reference = explicit masked reductions with np.where/count on float64 '
     '(exact ints) copies; callables via numpy.ma.apply_along_axis',
